@@ -24,5 +24,24 @@ else:
     i0 = s.index("| Prop | change | detected |")
     i1 = s.index("Own mutation experiments")
     s = s[:i0] + begin + "\n" + table + summary + end + "\n\n" + s[i1:]
+# ---- results at a glance (§0.3) from the committed evidence and known-finding files
+rb, re_ = "<!-- RESULTS-TABLE-BEGIN -->", "<!-- RESULTS-TABLE-END -->"
+res_rows = []
+for i in range(1, 20):
+    pid = f"C{i:02d}"
+    ev_path = os.path.join(ROOT, "evidence", pid + ".json")
+    kf_path = os.path.join(ROOT, "known_findings", pid + ".json")
+    ev = json.load(open(ev_path)) if os.path.exists(ev_path) else {}
+    cov = ev.get("coverage", {})
+    kf = json.load(open(kf_path))["entries"] if os.path.exists(kf_path) else []
+    nopen = sum(1 for e in kf if e["status"] == "open")
+    nfixed = sum(1 for e in kf if e["status"] == "fixed")
+    ncorp = len(glob.glob(os.path.join(ROOT, "corpus", pid, "*.json")))
+    res_rows.append(f"| {pid} | {ev.get('tier', '?')} / seed {ev.get('seed', '?')} | {cov.get('evaluations', '?')} | {cov.get('distinct_nontrivial', '?')} | "
+                    f"{ev.get('violations', '?') if not isinstance(ev.get('violations'), list) else len(ev['violations'])} | {nopen} | {nfixed} | {ncorp} |")
+res_table = ("| Prop | evidence from | evaluations | distinct non-trivial | new violations | open findings (replayed, `KNOWN-FINDING`) | fixed entries | corpus cases |\n"
+             "|---|---|---|---|---|---|---|---|\n" + "\n".join(res_rows))
+if rb in s:
+    s = s[: s.index(rb) + len(rb)] + "\n" + res_table + "\n" + s[s.index(re_):]
 open(p, "w").write(s)
 print(len(rows), cnt, "first-version:", first)
